@@ -254,6 +254,7 @@ def make_interp(P, unit, opaque=(), extra_models=None, loop_limit=1, globals_=No
             return 'own' if own > 0 else None
         if st.get('others') is None:
             st['others'] = ctx.choose(2, 'inherited child')
+            st['inherited'] = st['others']
             ctx.note('the process owns %s' % ('no other child' if st['others'] == 0 else 'one child it did not start (inherited through exec)'))
         oth = st['others']
         if own > 0 and oth > 0:
